@@ -1080,6 +1080,8 @@ class InputParameterStr(InputParameter):
         TypeError
             if the new value is not a str
         """
+        if self.read_only:
+            raise ValueError(f"parameter {self.key} is read only")
         if not isinstance(value, str):
             raise ValueError(f"parameter value {value} not a str")
         self._value = value
